@@ -173,7 +173,9 @@ def run(ctx):
                             f"{not_accepted[:3]}: {[i for rr in sres for i in rr['infos'] if i][:1]}")
     probes = [{"id": k, "src": src, "experimental": exp, "ops": ["probe"], "seed": f"probe{i}", "timeout": 120}
               for k, (i, src, exp) in enumerate((i, src, exp) for i, src in enumerate(diag_probes.PROBES) for exp in (False, True))]
-    jobs = probes + make_mutants(ctx.seed, ctx.pick(3000, 30000))
+    # VERIF_C02_MUTANTS overrides the number of random mutants (used for seeded-defect experiments on a loaded machine)
+    nmut = int(os.environ.get("VERIF_C02_MUTANTS", "") or ctx.pick(3000, 20000))
+    jobs = probes + make_mutants(ctx.seed, nmut)
     for k, j in enumerate(jobs):
         j["id"] = k
     ctx.log(f"{len(probes)} hand-written near-miss programs, {len(jobs) - len(probes)} distinct mutants of {len(seeds)} seed programs")
